@@ -241,9 +241,12 @@ class NodeRig:
             del self.log[:]
             ap = WhoIsRequest()
             ap.pduDestination = RemoteStation(DN[d], PROBE_MAC)
-            self.app.request(ap)
-            self.run()
             ems = []
+            try:
+                self.app.request(ap)
+                self.run()
+            except Exception:
+                ems.append(["raised", 0, 0])        # the node could not send at all
             for lan, pdu in self.log:
                 ems.append(self.classify(lan, pdu, d))
             self.nsap.pending_nets.clear()        # un-park the probe: the next probe starts from scratch
@@ -668,8 +671,10 @@ def main(tier, seed):
         "TLC exhaustive up to the stated level bound only; longer histories by trace validation of random runs"]
 
     # ---- D: the design satisfies the property -------------------------------------------------------------------
-    full = dict(FULL) if thorough else dict(FULL, att=[[1], [1, 2]])
-    run_mc(chk, "full", full, 5 if thorough else 4)
+    # full: the property's quantifier -- 2 source networks x 3 routers x 4 destinations, every argument set, all histories
+    # of 5 operations (quick: of 3); deep: a smaller universe to depth 7 (closes: every state of that universe is reached)
+    run_mc(chk, "full", dict(FULL) if thorough else dict(FULL, att=[[1], [1, 2]]), 5 if thorough else 3)
+    run_mc(chk, "deep", dict(snets=[1, 2], addrs=[1, 2], dnets=[1, 2, 3], statuses=[0], att=[[1], [1, 2]], upd=None, dels=None), 7)
     run_mc(chk, "status", dict(snets=[1, 2], addrs=[1, 2], dnets=[1, 2], statuses=[0, 1], att=[[1], [1, 2]], upd=None, dels=None),
            6 if thorough else 5)
     small = dict(snets=[1, 2], addrs=[1, 2], dnets=[1, 2, 3], statuses=[0], att=[[1], [1, 2]], upd=None, dels=None)
@@ -693,7 +698,7 @@ def main(tier, seed):
         graphs = [dump_graph(chk, "gQ", gQ, 3)]
     phase("R_graph_dumps")
     judge = Judge(chk)
-    node_budget = 90000 if thorough else 9000       # steps on the real node (about 1 ms each)
+    node_budget = 90000 if thorough else 6000       # steps on the real node (about 1 ms each)
     traces = []
     rinfo = []
     for g in graphs:
